@@ -429,9 +429,10 @@ theorem columns_commute (p : Precursor) (dests : List Str) :
 /-- **jsondata_commutes**: for a precursor `p` (one unit and one array per column name) and the Table built
     from it (destinations as the set iterates them), `make_table_json_data` and `table_to_json_data` return
     equal JsonData; the "columns" member is identical including its order and lists every column.
-    (With fewer units than names — possible only for a table without rows whose unit row is short — the Table
-    exists but its column register is shorter than its frame and `table_to_json_data` raises IndexError; such
-    input is outside the well-formed quantifier of C07 and is reported as an observation.) -/
+    (`hu`: a unit row shorter than the name row is an input error — /repo commit 7179188, `Reader.layout` —
+    so every precursor a reader produces has one unit per name; before that fix a table without rows slipped
+    through as a Table whose column register was shorter than its frame, on which `table_to_json_data` raised
+    IndexError while `make_table_json_data` silently dropped the columns beyond the units.) -/
 theorem jsondata_commutes (p : Precursor) (dests : List Str)
     (hperm : dests.Perm p.destinations) (hnd : p.destinations.Nodup)
     (hu : p.units.length = p.names.length) (hc : p.columns.length = p.names.length) (hn : p.names.Nodup) :
@@ -487,6 +488,17 @@ theorem jsondata_commutes (p : Precursor) (dests : List Str)
         .ok (.obj ((tableOf p dests).columns.map C08.Spec.colJson)) := rfl
     rw [this]
     exact hkeys'
+
+/-- non-vacuity of `jsondata_commutes`: the precursor of a two-column table with a missing number; the
+    destination set iterates in the other order -/
+def examplePrecursor : Precursor :=
+  ⟨"t".toList, false, ["a".toList, "b".toList], ["n".toList, "s".toList], ["m".toList, "text".toList],
+   [.num ["nan".toList, "1.5".toList], .text ["é".toList, []]]⟩
+
+example : ["b".toList, "a".toList].Perm examplePrecursor.destinations ∧ examplePrecursor.destinations.Nodup ∧
+    examplePrecursor.units.length = examplePrecursor.names.length ∧
+    examplePrecursor.columns.length = examplePrecursor.names.length ∧ examplePrecursor.names.Nodup :=
+  ⟨List.Perm.swap _ _ _, by decide, rfl, rfl, by decide⟩
 
 /-- what a `jsondata` block stands for: the JsonData of its precursor -/
 def jsonOf : BlockVal → Option (Except PyExc JVal)
